@@ -16,7 +16,7 @@ func init() {
 		Explanation: `R11.1 block ranges name library blocks: every OpBlockRange built in ComputeDiff takes FileIndex and BlockIndex from the block findUniqueHash returned and BlockSpan 1; the only other writer of BlockSpan is the merge in enqueue, which is control-dependent on equal file and contiguity; ` +
 			`R11.2 the pending range is flushed before any data op (in enqueue) and by a deferred closure on every return; R11.3 every operation leaves ComputeDiff through the cleaner returned by makeOperationCleaner, which forwards an empty data op only as the first op; ` +
 			`R11.4 every data-op payload is bounded by MaxDataOp by construction: its slice bounds are the pair the size-limit flush controls, a constant extent, or dominated by an explicit bound check; R11.5 every assignment to the start of the hash window (the low bound of βhash's argument) is followed, before the next such assignment or a return, by an assignment to the end of the pending-data window (the pair R11.4 identifies); R01.1 (shared) match acceptance incl. empty windows never match. ` +
-			`R11.6 a data op after which the scan can continue is made only under low < high (an empty one would flush the pending block range and be dropped). R11.7 every assignment to the end of the hash window (High bound of the weak hash's argument) is a min(...), a value merged from operands of the ordering comparison on their way in, or a store followed at once by an ordering test of the field (the clamp idioms). NOT decided: replay equality, merge completeness, wrap-around bookkeeping; the exhaustive small-alphabet enumeration the property describes belongs to a dynamic family.`,
+			`R11.6 a data op after which the scan can continue is made only under low < high (an empty one would flush the pending block range and be dropped). R11.7 every assignment to the end of the hash window (High bound of the weak hash's argument) is a min(...), a value merged from operands of the ordering comparison on their way in, or a store followed at once by an ordering test of the field (the clamp idioms). R11.8 nothing in package wsync is computed as x & (n-1) with n a value of the run (the block size is the caller's choice; the mask is a remainder only for powers of two). NOT decided: replay equality, merge completeness, wrap-around bookkeeping; the exhaustive small-alphabet enumeration the property describes belongs to a dynamic family.`,
 		Run: runC11,
 	})
 	register(&Property{
@@ -32,6 +32,7 @@ func init() {
 }
 
 func runC11(c *core.Ctx) {
+	ruleNoMaskForRuntimeModulo(c, "R11.8")
 	c.Rule("R11.1", "block ranges name library blocks; merge guarded by contiguity")
 	c.Rule("R11.2", "pending range flushed before data and at the end")
 	c.Rule("R11.3", "cleaner is on every emit path")
